@@ -766,7 +766,11 @@ static void judge(base_t *b, const unsigned char *p, size_t n, const char *where
 		snprintf(sig, sizeof sig, "rejects-valid:%s", where);
 		fail_once(sig, "%s %s: the tree satisfies the schema but the %s parser refused it: 0x%x; bytes=%s", b->name, what, rn, res, hexcut(p, n));
 	} else if (v == RSCH_SILENT) {
-		vf_outcome("silent:%s", strchr(info.silent, ':') ? strchr(info.silent, ':') + 1 : info.silent);
+		/* class: the rule without container and element names */
+		char r[96], *c1;
+		snprintf(r, sizeof r, "%s", strchr(info.silent, ':') ? strchr(info.silent, ':') + 1 : info.silent);
+		c1 = strchr(r, ':'); if (c1) *c1 = 0;
+		vf_outcome("silent:%s:%s", r, acc ? "accepted" : "refused");
 	}
 	/* unknown non-critical elements are ignored: same fields, element preserved, same verdict */
 	if (acc && v == RSCH_ACCEPT && only_nc && info.unknown_nc > 0) {
@@ -880,7 +884,7 @@ static void part_pairs(void) {
 		int np, pi, oi;
 		static opdesc ops[MAXPOS][MAXOPS];
 		static int nops[MAXPOS];
-		if (!b->pairs) continue;
+		/* all bases (the pairs flag marks the subset used when time is short) */
 		arena_reset();
 		t = tree_read(b->root, b->bytes.p, b->bytes.n);
 		np = dfs(t, pos, 0);
@@ -915,7 +919,7 @@ static void part_pairs(void) {
 				t2 = tree_read(b->root, w1.p, w1.n);
 				q = t2;
 				for (d = depth - 1; d >= 0; d--) q = q->kid[path[d]];
-				n2 = ops_for(q->kid[j], b->root, ops2, 1);
+				n2 = ops_for(q->kid[j], b->root, ops2, 0);
 				for (o2 = 0; o2 < n2; o2++) {
 					vbuf w2;
 					char what[128];
